@@ -447,11 +447,57 @@ func runC20(c *Ctx) {
 	}
 	// ---- template
 	wh := c.P.Func("terminal", "WithHeader")
-	if wh == nil || len(wh.AnonFuncs) != 1 {
-		R.Fatal("anchor terminal.WithHeader (one closure) not found")
+	// the option function WithHeader returns: the value stored into the F field of the Option it builds - a function
+	// literal, or a method value of a small struct that carries the two arguments
+	var cl *ssa.Function
+	if wh != nil {
+		for _, b := range wh.Blocks {
+			for _, ins := range b.Instrs {
+				if st, isSt := ins.(*ssa.Store); isSt {
+					if _, f, okF := fieldNameOfAddr(st.Addr); okF && f == "F" {
+						cl = funcOfValue(st.Val)
+					}
+				}
+			}
+		}
+		if cl == nil && len(wh.AnonFuncs) == 1 {
+			cl = wh.AnonFuncs[0]
+		}
+	}
+	if wh == nil || cl == nil {
+		R.Fatal("anchor terminal.WithHeader (the function stored into Option.F) not found")
 		return
 	}
-	cl := wh.AnonFuncs[0]
+	// where the two arguments live while the option function runs: captured variables, or fields of the struct the
+	// method value is bound to (stored from WithHeader's parameters when it is built)
+	argField := func(v ssa.Value, arg string) bool {
+		ld, isLd := v.(*ssa.UnOp)
+		if !isLd {
+			return false
+		}
+		if fv, isFV := ld.X.(*ssa.FreeVar); isFV {
+			return fv.Name() == arg
+		}
+		fa, isFA := ld.X.(*ssa.FieldAddr)
+		if !isFA {
+			return false
+		}
+		_, fname, _ := fieldNameOfAddr(fa)
+		// the field is initialised from the parameter of that name in WithHeader
+		for _, b := range wh.Blocks {
+			for _, ins := range b.Instrs {
+				if st, isSt := ins.(*ssa.Store); isSt {
+					if _, f2, ok2 := fieldNameOfAddr(st.Addr); ok2 && f2 == fname {
+						if prm, isP := st.Val.(*ssa.Parameter); isP && prm.Name() == arg {
+							return true
+						}
+					}
+				}
+			}
+		}
+		return false
+	}
+	_ = argField
 	{
 		// the function that frames the template: the closure itself, or a helper of the package it calls (one level)
 		tf := cl
@@ -700,6 +746,11 @@ func runC20(c *Ctx) {
 						if fv, isFV := st.Addr.(*ssa.FreeVar); isFV && fv.Name() == "phone" {
 							vals = append(vals, st.Val)
 						}
+						if fa, isFA := st.Addr.(*ssa.FieldAddr); isFA {
+							if _, fn2, okF := fieldNameOfAddr(fa); okF && fn2 == "phone" {
+								vals = append(vals, st.Val)
+							}
+						}
 					}
 					if call, isC := ins.(*ssa.Call); isC && (calleeName(&call.Call) == "strings.Replace" || calleeName(&call.Call) == "strings.ReplaceAll") && len(call.Call.Args) >= 3 {
 						vals = append(vals, call.Call.Args[2])
@@ -715,6 +766,9 @@ func runC20(c *Ctx) {
 					for _, o := range c.origins(v0, map[string]bool{"fmt.Sprintf": true}, nil) {
 						switch {
 						case o.Kind == "param" && o.Name == "freevar phone":
+							sawArg = true
+						case o.Kind == "field" && argField(o.Val, "phone"):
+							// the struct field that holds the phone argument (padded in place by the option function itself)
 							sawArg = true
 						case o.Kind == "const" && padFmt.MatchString(o.Name):
 						default:
@@ -748,6 +802,9 @@ func runC20(c *Ctx) {
 				}
 			}
 			if fv, isFV := v.(*ssa.FreeVar); isFV && fv.Name() == "protocolVersion" {
+				okV = true
+			}
+			if argField(v, "protocolVersion") {
 				okV = true
 			}
 		}
